@@ -12,7 +12,7 @@ use serde_json::json;
 pub static SPEC: PropSpec = PropSpec {
     id: "C08",
     level: "exploration",
-    rule: "tests: closure body shape (14: a captured dyn value used only as dyn-call receiver, arithmetic, if, int / string / tuple / enum matches with the captured variable in one arm only - including only the default arm -, capture through an inner closure only, shadowing inside the body, loops, Ref reads and updates, calling a captured function value, struct field of a captured struct) x capture kind (8: parameter, shadowed let, tuple-pattern variable, match-arm variable, outer closure parameter, value read from a Ref, the Ref cell itself, top-level function value) x flow (6: direct call, returned from a function - directly, in a flat tuple, nested in tuples on the left / right -, two closures sharing a Ref returned in a tuple, captured by another closure, created and called in a loop, nested three deep); exhaustive over the product, packed 24 tests per program; plus random closure-heavy programs. non-trivial: all tests; distinct by (shape, capture, flow)",
+    rule: "tests: closure body shape (14: a captured dyn value used only as dyn-call receiver, arithmetic, if, int / string / tuple / enum matches with the captured variable in one arm only - including only the default arm -, capture through an inner closure only, shadowing inside the body, loops, Ref reads and updates, calling a captured function value, struct field of a captured struct) x capture kind (8: parameter, shadowed let, tuple-pattern variable, match-arm variable, outer closure parameter, value read from a Ref, the Ref cell itself, top-level function value) x flow (6: direct call, returned from a function - directly, in a flat tuple, nested in tuples on the left / right, in a field of a generic struct instantiated at the function type, in a field of a plain struct taken out by a struct pattern -, two closures sharing a Ref returned in a tuple, captured by another closure, created and called in a loop, nested three deep); exhaustive over the product, packed 24 tests per program; plus random closure-heavy programs. non-trivial: all tests; distinct by (shape, capture, flow)",
     eval_counter: "tests",
     assumptions: &["closure values flowing into function-typed parameters / struct fields / heterogeneous branches are outside the clean lattice (recorded C02 finding); relative to refsem and gomini"],
     crash_is_violation: false,
@@ -224,7 +224,23 @@ fn test(k: usize, shape: usize, cap: usize, flow: usize) -> Vec<FnDecl> {
         let second = clo(&[("q", I32)], add(var("q"), var("b")));
         let call_mk = Expr::Call { name: format!("mk{}", k), targs: vec![], args: vec![var("a"), var("b")] };
         let pv = |n: &str| Pat::Var(n.into());
-        let (ret, result, bind, use_e): (Ty, Expr, Stmt, Expr) = match shape % 4 {
+        let slot_ty = Ty::Struct(format!("Slot{}", k), vec![fty.clone()]);
+        let hold_ty = Ty::Struct(format!("Hold{}", k), vec![]);
+        let (ret, result, bind, use_e): (Ty, Expr, Stmt, Expr) = match shape % 6 {
+            // stored in the field of a generic struct instantiated at the function type, read back by field access
+            4 => (
+                slot_ty.clone(),
+                Expr::StructLit { name: format!("Slot{}", k), ty: slot_ty.clone(), fields: vec![("value".into(), the_closure), ("extra".into(), add(var("a"), i(1)))] },
+                Stmt::Let(Pat::Var("slot".into()), Some(slot_ty.clone()), call_mk),
+                blk(vec![let_("f", Expr::Field(Box::new(var("slot")), "value".into()))], add(add(callv(var("f"), vec![i(2)]), callv(var("f"), vec![i(0)])), Expr::Field(Box::new(var("slot")), "extra".into()))),
+            ),
+            // stored in a field of a non-generic struct, taken out by a struct pattern
+            5 => (
+                hold_ty.clone(),
+                Expr::StructLit { name: format!("Hold{}", k), ty: hold_ty.clone(), fields: vec![("h".into(), the_closure), ("n".into(), add(var("a"), i(1)))] },
+                Stmt::Let(Pat::Struct { name: format!("Hold{}", k), fields: vec![("h".into(), pv("f")), ("n".into(), pv("n"))] }, None, call_mk),
+                add(add(callv(var("f"), vec![i(2)]), callv(var("f"), vec![i(0)])), var("n")),
+            ),
             0 => (fty.clone(), the_closure, let_("f", call_mk), add(callv(var("f"), vec![i(2)]), callv(var("f"), vec![i(0)]))),
             1 => (
                 Ty::Tuple(vec![fty.clone(), I32]),
@@ -257,6 +273,11 @@ fn test(k: usize, shape: usize, cap: usize, flow: usize) -> Vec<FnDecl> {
 fn program(tests: &[(usize, usize, usize)]) -> Program {
     let mut prog = Program::default();
     prog.items.push(Item::Enum(EnumDecl { name: "Ev".into(), tparams: vec![], variants: vec![("V0".into(), vec![]), ("V2".into(), vec![I32, I32])], derives: vec![] }));
+    // every test has its own holder types: a struct field that stores a closure takes that closure's type
+    for k in 0..tests.len() {
+        prog.items.push(Item::Struct(StructDecl { name: format!("Slot{}", k), tparams: vec!["T".into()], fields: vec![("value".into(), Ty::Param("T".into())), ("extra".into(), I32)], derives: vec![] }));
+        prog.items.push(Item::Struct(StructDecl { name: format!("Hold{}", k), tparams: vec![], fields: vec![("h".into(), Ty::Func(vec![I32], Box::new(I32))), ("n".into(), I32)], derives: vec![] }));
+    }
     prog.items.push(Item::Trait(TraitDecl { name: "Dv".into(), methods: vec![MethodSig { name: "val".into(), extra: vec![I32], ret: I32 }] }));
     prog.items.push(Item::Struct(StructDecl { name: "Dw".into(), tparams: vec![], fields: vec![("w".into(), I32)], derives: vec![] }));
     prog.items.push(Item::Impl(ImplDecl {
